@@ -7,7 +7,8 @@ Unsupported (a broken obligation).
    the bodies the model mirrors (chip_res / mget / mset / raster; copy = a new Machine built from the same six
    attributes, each copied one level deep by __init__: independent containers, shared resource identifiers).
  * rig/place_and_route/place/{breadth_first,hilbert,rcm}.py: `place` forwards to sequential.place with the vertex and
-   chip orders the model's entry points use; hilbert_chip_order computes int(ceil(log(max(w, h), 2.0))) (0 below 1)."""
+   chip orders the model's entry points use; hilbert_chip_order computes int(ceil(log(max(w, h), 2.0))) (0 below 1);
+   breadth_first_vertex_order has exactly the statements Model/BFOrder.v mirrors."""
 import ast
 import os
 import sys
@@ -181,6 +182,34 @@ def main():
          and [dump(d) for d in f.args.defaults] == [dump(ast.Constant(None))], "breadth_first.place parameters")
     same(b, "return sequential_place(vertices_resources, nets, machine, constraints, "
             "breadth_first_vertex_order(vertices_resources, nets), chip_order)", "breadth_first.place")
+    # breadth_first_vertex_order: the statements Model/BFOrder.v mirrors (set choices are the model's oracles)
+    f, b = func(bf, "breadth_first_vertex_order", "breadth_first")
+    need(params(f) == ["vertices_resources", "nets"] and not f.args.defaults, "breadth_first_vertex_order parameters")
+    same(b, "if len(vertices_resources) == 0:\n    return\n"
+            "vertex_neighbours = defaultdict(set)\n"
+            "for net in nets:\n"
+            "    vertex_neighbours[net.source].update(net)\n"
+            "    for sink in net.sinks:\n"
+            "        vertex_neighbours[sink].update(net)\n"
+            "unplaced_vertices = set(vertices_resources)\n"
+            "vertex_queue = deque()\n"
+            "while vertex_queue or unplaced_vertices:\n"
+            "    if not vertex_queue:\n"
+            "        vertex_queue.append(unplaced_vertices.pop())\n"
+            "    vertex = vertex_queue.popleft()\n"
+            "    yield vertex\n"
+            "    vertex_queue.extend(v for v in vertex_neighbours[vertex] if v in unplaced_vertices)\n"
+            "    unplaced_vertices.difference_update(vertex_neighbours[vertex])", "breadth_first_vertex_order")
+    imp = [n for n in bf if isinstance(n, ast.ImportFrom) and n.module == "collections"]
+    need(len(imp) == 1 and sorted((a.name, a.asname) for a in imp[0].names) == [("defaultdict", None), ("deque", None)],
+         "breadth_first: deque / defaultdict are not collections' own")
+    need(not any(isinstance(n, (ast.Assign, ast.AugAssign, ast.ClassDef)) for n in bf)
+         and sorted(n.name for n in bf if isinstance(n, ast.FunctionDef)) == ["breadth_first_vertex_order", "place"],
+         "breadth_first: module-level state or further definitions")
+    out.append("(* breadth_first_vertex_order: neighbour sets = union of the member sets of the nets a vertex is in; loop =\n"
+               "   pop from the set when the queue is empty, popleft, yield, extend by the unplaced neighbours, difference_update:\n"
+               "   exactly Model/BFOrder.v's bf_loop with pick = set.pop and arr = set iteration order *)")
+    out.append(D.definition("gen_bf_order_shape_checked", "bool", "true"))
     hil = module("rig/place_and_route/place/hilbert.py")
     f, b = func(hil, "place", "hilbert")
     need(params(f) == ["vertices_resources", "nets", "machine", "constraints", "breadth_first"]
@@ -202,6 +231,9 @@ def main():
         imp = [n for n in tree_ if isinstance(n, ast.ImportFrom) and n.module == "rig.place_and_route.place.sequential"]
         need(len(imp) == 1 and [(a.name, a.asname) for a in imp[0].names] == [("place", "sequential_place")],
              mod + ": sequential_place is not rig.place_and_route.place.sequential.place")
+    imp = [n for n in hil if isinstance(n, ast.ImportFrom) and n.module == "rig.place_and_route.place.breadth_first"]
+    need(len(imp) == 1 and [(a.name, a.asname) for a in imp[0].names] == [("breadth_first_vertex_order", None)],
+         "hilbert: breadth_first_vertex_order is not rig.place_and_route.place.breadth_first's")
     out.append("(* breadth_first.place = sequential.place(..., breadth_first_vertex_order(vr, nets), chip_order);\n"
                "   hilbert.place = sequential.place(..., None | breadth_first_vertex_order(vr, nets), hilbert_chip_order(machine));\n"
                "   rcm.place = sequential.place(..., rcm_vertex_order(vr, nets), rcm_chip_order(machine));\n"
